@@ -130,6 +130,14 @@ Fixpoint skip_while_nl (f : nat) (c : ctx) : ctx :=
 
 Definition skip_nls (c : ctx) : ctx := skip_while_nl (local_fuel c) c.
 
+(* assignable_call, after an argument: the list continues over line breaks next to a comma; blank and
+   comment-only lines in between are insignificant *)
+Definition after_arg (c : ctx) : ctx :=
+  let an := skip_nls c in
+  if tok_is KComma (token c) || (tok_is KNewline (token c) && tok_is KComma (token an))
+  then skip_nls (skip 1 an)
+  else c.
+
 Definition self_name : name := [115; 101; 108; 102]%N.
 Definition slash : N := 47%N.
 
@@ -318,7 +326,7 @@ Inductive req :=
 | QCases (acc : list casebranch) (c : ctx)                    (* case_expression: branch loop *)
 | QParams (acc : list (name * ty)) (c : ctx)                  (* function: parameter loop *)
 | QType (c : ctx)                                             (* parse_type *)
-| QSepTypes (c : ctx)                                         (* parse_sep_end_by(…, parse_type) after `(` *)
+| QSepTypes (old : bool) (c : ctx)                            (* parse_sep_end_by(…, parse_type) after `(` *)
 | QFnTyParams (acc : list ty) (c : ctx)                       (* parse_type: fn parameter loop *)
 | QTyTuple (is_tuple : bool) (acc : list ty) (c : ctx)        (* parse_type: tuple loop *)
 | QStmts (acc : list stmt) (c : ctx)                          (* block: loop *)
@@ -447,27 +455,29 @@ Fixpoint has_dup {V : Type} (l : list (name * V)) : bool :=
   end.
 
 (* parse_beg_end_comma_sep!(ctx, LeftParen, RightParen, item) with item = `*` Identifier; token-only *)
-Fixpoint sep_vars (f : nat) (c : ctx) : res (list name * ctx) :=
+Fixpoint sep_vars (f : nat) (old : bool) (c : ctx) : res (list name * ctx) :=
   match f with
   | 0 => Fuel
   | S f' =>
-      if is_k KRightParen c then Ok ([], skip 1 c)
+      if is_k KRightParen c then Ok ([], skip 1 (pop_nl old c))
       else
         let+ c1 := expect KStar c in
         match token c1 with
         | TIdent v =>
             let c2 := skip 1 c1 in
-            if is_k KRightParen c2 then Ok ([v], skip 1 c2)
+            if is_k KRightParen c2 then Ok ([v], skip 1 (pop_nl old c2))
             else
               let+ c3 := expect KComma c2 in
-              let+ '(vs, c4) := sep_vars f' c3 in
+              let+ '(vs, c4) := sep_vars f' old c3 in
               Ok (v :: vs, c4)
         | _ => Err
         end
   end.
 
 Definition paren_vars (c : ctx) : res (list name * ctx) :=
-  if is_k KLeftParen c then sep_vars (local_fuel c) (skip 1 c) else Ok ([], c).
+  if is_k KLeftParen c then
+    let '(c1, old) := push_nl true (skip 1 c) in sep_vars (local_fuel c) old c1
+  else Ok ([], c).
 
 Definition pexpect (k : kw) (c : ctx) : prog ctx := Ret (expect k c).
 
@@ -483,7 +493,9 @@ Definition block (c : ctx) : prog (list stmt * ctx) := call_Ss ((QStmts [] (skip
 
 (* parse_beg_end_comma_sep!(ctx, LeftParen, RightParen, parse_type) *)
 Definition paren_types (c : ctx) : prog (list ty * ctx) :=
-  if is_k KLeftParen c then call_Ts ((QSepTypes (skip 1 c))) else ok ([], c).
+  if is_k KLeftParen c then
+    let '(c1, old) := push_nl true (skip 1 c) in call_Ts (QSepTypes old c1)
+  else ok ([], c).
 
 (* ---- parse_type ---- *)
 Definition step_type (c : ctx) : prog out :=
@@ -512,30 +524,31 @@ Definition step_type (c : ctx) : prog out :=
       let* '(ps, r, c3) := call_FnTy ((QFnTyParams [] c2)) in
       ok (RT (TyFn cs ps r pure) c3)
   | TK KLeftParen =>
-      let c1 := skip 1 c in
+      let '(c1, old) := push_nl true (skip 1 c) in
       let is_tuple := is_k KComma c1 || is_k KRightParen c1 in
       let* '(is_tuple', ts, c2) := call_TyTup ((QTyTuple is_tuple [] c1)) in
-      let* c3 := pexpect KRightParen c2 in
+      let* c3 := pexpect KRightParen (pop_nl old c2) in
       if is_tuple' then ok (RT (TyTuple ts) c3)
       else match ts with
            | t :: _ => ok (RT (TyGroup t) c3)
            | [] => err      (* `types.remove(0)` on an empty vector: unreachable, see the loop *)
            end
   | TK KLeftBracket =>
-      let* '(t, c1) := parse_type (skip 1 c) in
-      let* c2 := pexpect KRightBracket c1 in
+      let '(c0, old) := push_nl true (skip 1 c) in
+      let* '(t, c1) := parse_type c0 in
+      let* c2 := pexpect KRightBracket (pop_nl old c1) in
       ok (RT (TyList t) c2)
   | _ => err
   end.
 
-Definition step_sep_types (c : ctx) : prog out :=
-  if is_k KRightParen c then ok (RTs [] (skip 1 c))
+Definition step_sep_types (old : bool) (c : ctx) : prog out :=
+  if is_k KRightParen c then ok (RTs [] (skip 1 (pop_nl old c)))
   else
     let* '(t, c1) := parse_type c in
-    if is_k KRightParen c1 then ok (RTs [t] (skip 1 c1))
+    if is_k KRightParen c1 then ok (RTs [t] (skip 1 (pop_nl old c1)))
     else
       let* c2 := pexpect KComma c1 in
-      let* '(ts, c3) := call_Ts ((QSepTypes c2)) in
+      let* '(ts, c3) := call_Ts (QSepTypes old c2) in
       ok (RTs (t :: ts) c3).
 
 Definition step_fnty_params (acc : list ty) (c : ctx) : prog out :=
@@ -582,23 +595,16 @@ Definition step_args (primer : bool) (acc : list expr) (c : ctx) : prog out :=
   | _ =>
       ptry (expression c)
            (fun '(e, c1) =>
-              let c2 :=
-                match look2 c1 with
-                | (TK KNewline, TK KComma) => skip 2 c1
-                | (TK KComma, TK KNewline) => skip 2 c1
-                | (TK KComma, _) => skip 1 c1
-                | _ => c1
-                end in
-              call (QArgs primer (acc ++ [e]) c2))
+              call (QArgs primer (acc ++ [e]) (after_arg c1)))
            (if primer then ok (REs acc c) else err)
   end.
 
 Definition assignable_index (c : ctx) (indexed : assignable) : prog out :=
-  let c1 := skip 1 c in
+  let '(c1, old) := push_nl true (skip 1 c) in
   let* '(e, c2) := expression c1 in
   match e with
   | EInt _ =>
-      let* c3 := pexpect KRightBracket c2 in
+      let* c3 := pexpect KRightBracket (pop_nl old c2) in
       call (QSub (AIndex indexed e) c3)
   | _ => err
   end.
@@ -1061,7 +1067,7 @@ Definition step (q : req) : prog out :=
   | QCases acc c => step_cases acc c
   | QParams acc c => step_params acc c
   | QType c => step_type c
-  | QSepTypes c => step_sep_types c
+  | QSepTypes old c => step_sep_types old c
   | QFnTyParams acc c => step_fnty_params acc c
   | QTyTuple b acc c => step_ty_tuple b acc c
   | QStmts acc c => step_stmts acc c
